@@ -216,7 +216,8 @@ class KeyValuePairNode(ContainerNode):
 
     def edits(self, node: TreeNode) -> Edit:
         if not isinstance(node, KeyValuePairNode):
-            raise RuntimeError("KeyValuePairNode.edits() should only ever be called with another KeyValuePair object!")
+            # e.g., when a mapping is matched against a multiset of plain items
+            return Replace(self, node)
         if self.allow_key_edits or self.key == node.key:
             return KeyValuePairEdit(self, node)
         else:
